@@ -258,3 +258,20 @@ Section WaitsProofs.
     - apply emit_accepted. split; apply suffix_nil.
   Qed.
 End WaitsProofs.
+
+(* ------------------------------------------------------------ a non-trivial instance *)
+(* operations 0..3: conv(0) dma(1) conv(2) dma(3); the DMAs write what the following convolution
+   reads, U65 limits: the model emits DMA_WAIT 0 before conv 2 and nothing else for this order *)
+Example waits_example :
+  let is_dma := fun o : Z => Z.odd o in
+  let conflict := fun a b : Z => ((a =? 1) && (b =? 2)) || ((a =? 2) && (b =? 1)) || ((a =? 3) && (b =? 0)) || ((a =? 0) && (b =? 3)) in
+  (forall a b, conflict a b = conflict b a) /\
+  run_waits Z is_dma conflict 2 2 w_init [0; 1; 2; 3] = [(-1, -1); (-1, -1); (-1, 0); (1, -1)] /\
+  emit Z is_dma conflict 2 2 w_init [0; 1; 2; 3] =
+    [QIssue 0; QIssue 1; QWaitD 0; QIssue 2; QWaitK 1; QIssue 3].
+Proof.
+  cbv zeta. split; [|split; vm_compute; reflexivity].
+  intros a b.
+  destruct (Z.eqb_spec a 0), (Z.eqb_spec a 1), (Z.eqb_spec a 2), (Z.eqb_spec a 3),
+           (Z.eqb_spec b 0), (Z.eqb_spec b 1), (Z.eqb_spec b 2), (Z.eqb_spec b 3); try reflexivity; lia.
+Qed.
